@@ -181,6 +181,23 @@ class RunCtx:
                     env.fired("timer_late")
 
             loop.step_hooks.append(stall_hook)
+        cpu_p = b.get("cpu_p", 0.0)
+        if cpu_p:
+            # Under virtual time computation is free, so "yield if this loop has been running for more
+            # than 50 ms" points (Mailbox.fetch, search) never fire. Here reading the monotonic clock
+            # sometimes costs CPU time: the clock moves on inside a step, and those yields happen.
+            import time as _time
+
+            r3 = env.rng("cpu")
+            cpu_max = b.get("cpu_max", 0.06)
+
+            def mono():
+                if r3.random() < cpu_p:
+                    loop._now += r3.random() * cpu_max
+                    env.fired("cpu_time")
+                return loop._now
+
+            _time.monotonic = mono
         p_ro = b.get("db_readonly_p", 0.0)
         if p_ro:
             r2 = env.rng("dbfault")
